@@ -1,5 +1,787 @@
-//! Harness binary for property C02 (line protocol; see /verif/vlib/BUILDER_GUIDE.md).
+//! Harness binary for property C02 (optimisation passes preserve behaviour).
+//!
+//! Kernel protocols (answers compared line by line with lean/Driver/C02.lean):
+//!   fold OP a b | tgt OP a b | merge OUTER INNER c1 c2 | trip G i0 step bound
+//!   flex OP e1 e2 | order OP e1 e2 | unwrap OP e1 e2 | ccp OP o1 o2
+//!   ivloop G i0 step bound m c fuel | ivorig G i0 step bound m c fuel
+//! Oracle protocol (independent of the Lean model): a MIR interpreter with the target's 32-bit
+//! semantics runs a program before and after one real pass / round driver / `optimize_sources`:
+//!   prog PASS CFG | a,b;c,d;… | fn f0 2 … ret x end fn f1 …
+//!   show PASS CFG | | <program>      (prints the MIR before and after, for replays)
+use samlang_ast::hir::BinaryOperator as B;
+use samlang_ast::mir::*;
+use samlang_heap::{Heap, PStr};
+use samlang_optimization::{OptimizationConfiguration, verif_hooks};
+use samverif_harness::util::*;
+use std::collections::HashMap;
+use std::panic::{AssertUnwindSafe, catch_unwind};
+
+fn op_of(s: &str) -> Option<B> {
+  Some(match s {
+    "mul" => B::MUL,
+    "div" => B::DIV,
+    "mod" => B::MOD,
+    "add" => B::PLUS,
+    "sub" => B::MINUS,
+    "and" => B::LAND,
+    "or" => B::LOR,
+    "shl" => B::SHL,
+    "shr" => B::SHR,
+    "xor" => B::XOR,
+    "lt" => B::LT,
+    "le" => B::LE,
+    "gt" => B::GT,
+    "ge" => B::GE,
+    "eq" => B::EQ,
+    "ne" => B::NE,
+    _ => return None,
+  })
+}
+
+fn op_name(o: B) -> &'static str {
+  match o {
+    B::MUL => "mul",
+    B::DIV => "div",
+    B::MOD => "mod",
+    B::PLUS => "add",
+    B::MINUS => "sub",
+    B::LAND => "and",
+    B::LOR => "or",
+    B::SHL => "shl",
+    B::SHR => "shr",
+    B::XOR => "xor",
+    B::LT => "lt",
+    B::LE => "le",
+    B::GT => "gt",
+    B::GE => "ge",
+    B::EQ => "eq",
+    B::NE => "ne",
+  }
+}
+
+fn name(heap: &mut Heap, s: &str) -> PStr {
+  heap.alloc_string(s.to_string())
+}
+
+fn var(heap: &mut Heap, s: &str) -> Expression {
+  Expression::var_name(name(heap, s), INT_32_TYPE)
+}
+
+/// `i<n>` Int32Literal, `j<n>` Int31Literal, `s<k>` StringName, `v<k>` Variable.
+fn expr_of(heap: &mut Heap, s: &str) -> Option<Expression> {
+  let (k, rest) = s.split_at(1);
+  Some(match k {
+    "i" => Expression::Int32Literal(rest.parse().ok()?),
+    "j" => Expression::Int31Literal(rest.parse().ok()?),
+    "s" => Expression::StringName(name(heap, &format!("s{:02}", rest.parse::<u32>().ok()?))),
+    "v" => var(heap, &format!("v{:02}", rest.parse::<u32>().ok()?)),
+    _ => return None,
+  })
+}
+
+fn show_expr(heap: &Heap, e: &Expression) -> String {
+  match e {
+    Expression::Int32Literal(n) => format!("i{n}"),
+    Expression::Int31Literal(n) => format!("j{n}"),
+    Expression::StringName(p) => p.as_str(heap).to_string(),
+    Expression::Variable(v) => v.name.as_str(heap).to_string(),
+  }
+}
+
+fn show_binary(heap: &Heap, b: &Binary) -> String {
+  format!("{} {} {}", op_name(b.operator), show_expr(heap, &b.e1), show_expr(heap, &b.e2))
+}
+
+// ---------------------------------------------------------------------------------------------
+// Program text -> MIR
+// ---------------------------------------------------------------------------------------------
+
+struct Parser<'a> {
+  toks: Vec<&'a str>,
+  pos: usize,
+}
+
+type PResult<T> = Result<T, String>;
+
+impl<'a> Parser<'a> {
+  fn next(&mut self) -> PResult<&'a str> {
+    let t = self.toks.get(self.pos).copied().ok_or_else(|| "unexpected end".to_string())?;
+    self.pos += 1;
+    Ok(t)
+  }
+  fn peek(&self) -> Option<&'a str> {
+    self.toks.get(self.pos).copied()
+  }
+  fn expect(&mut self, s: &str) -> PResult<()> {
+    let t = self.next()?;
+    if t == s { Ok(()) } else { Err(format!("expected {s} got {t}")) }
+  }
+  fn num(&mut self) -> PResult<usize> {
+    self.next()?.parse::<usize>().map_err(|e| e.to_string())
+  }
+  fn expr(&mut self, heap: &mut Heap) -> PResult<Expression> {
+    let t = self.next()?;
+    let c = t.chars().next().unwrap();
+    if c == '-' || c.is_ascii_digit() {
+      Ok(Expression::Int32Literal(t.parse::<i32>().map_err(|e| e.to_string())?))
+    } else {
+      Ok(var(heap, t))
+    }
+  }
+  fn block(&mut self, heap: &mut Heap) -> PResult<Vec<Statement>> {
+    self.expect("{")?;
+    let s = self.stmts(heap)?;
+    self.expect("}")?;
+    Ok(s)
+  }
+  fn stmts(&mut self, heap: &mut Heap) -> PResult<Vec<Statement>> {
+    let mut out = Vec::new();
+    loop {
+      match self.peek() {
+        None | Some("}") | Some("ret") => return Ok(out),
+        _ => out.push(self.stmt(heap)?),
+      }
+    }
+  }
+  fn opt_name(&mut self, heap: &mut Heap) -> PResult<Option<PStr>> {
+    let t = self.next()?;
+    Ok(if t == "_" { None } else { Some(name(heap, t)) })
+  }
+  fn stmt(&mut self, heap: &mut Heap) -> PResult<Statement> {
+    let k = self.next()?;
+    Ok(match k {
+      "bin" => {
+        let n = self.next()?;
+        let n = name(heap, n);
+        let o = self.next()?;
+        let operator = op_of(o).ok_or_else(|| format!("bad op {o}"))?;
+        let e1 = self.expr(heap)?;
+        let e2 = self.expr(heap)?;
+        Statement::Binary(Binary { name: n, operator, e1, e2 })
+      }
+      "not" => {
+        let n = self.next()?;
+        Statement::Not { name: name(heap, n), operand: self.expr(heap)? }
+      }
+      "cast" => {
+        let n = self.next()?;
+        Statement::Cast { name: name(heap, n), type_: INT_32_TYPE, assigned_expression: self.expr(heap)? }
+      }
+      "call" => {
+        let f = self.next()?;
+        let n = self.num()?;
+        let mut arguments = Vec::new();
+        for _ in 0..n {
+          arguments.push(self.expr(heap)?);
+        }
+        let return_collector = self.opt_name(heap)?;
+        Statement::Call {
+          callee: Callee::FunctionName(FunctionNameExpression {
+            name: FunctionName { type_name: TypeNameId::EMPTY, fn_name: name(heap, f) },
+            type_: Type::new_fn_unwrapped(vec![INT_32_TYPE; n], INT_32_TYPE),
+          }),
+          arguments,
+          return_type: INT_32_TYPE,
+          return_collector,
+        }
+      }
+      "if" => {
+        let condition = self.expr(heap)?;
+        let s1 = self.block(heap)?;
+        let s2 = self.block(heap)?;
+        let n = self.num()?;
+        let mut final_assignments = Vec::new();
+        for _ in 0..n {
+          let nm = self.next()?;
+          let nm = name(heap, nm);
+          let e1 = self.expr(heap)?;
+          let e2 = self.expr(heap)?;
+          final_assignments.push(IfElseFinalAssignment { name: nm, type_: INT_32_TYPE, e1, e2 });
+        }
+        Statement::IfElse { condition, s1, s2, final_assignments }
+      }
+      "sif" => {
+        let condition = self.expr(heap)?;
+        let invert_condition = self.num()? != 0;
+        let statements = self.block(heap)?;
+        Statement::SingleIf { condition, invert_condition, statements }
+      }
+      "brk" => Statement::Break(self.expr(heap)?),
+      "while" => {
+        let n = self.num()?;
+        let mut loop_variables = Vec::new();
+        for _ in 0..n {
+          let nm = self.next()?;
+          let nm = name(heap, nm);
+          let initial_value = self.expr(heap)?;
+          let loop_value = self.expr(heap)?;
+          loop_variables.push(GenenalLoopVariable { name: nm, type_: INT_32_TYPE, initial_value, loop_value });
+        }
+        let statements = self.block(heap)?;
+        let break_collector = self.opt_name(heap)?.map(|n| VariableName { name: n, type_: INT_32_TYPE });
+        Statement::While { loop_variables, statements, break_collector }
+      }
+      other => return Err(format!("bad statement {other}")),
+    })
+  }
+  fn function(&mut self, heap: &mut Heap) -> PResult<Function> {
+    self.expect("fn")?;
+    let f = self.next()?;
+    let n = self.num()?;
+    let parameters = (0..n).map(|i| name(heap, &format!("p{i}"))).collect();
+    let body = self.stmts(heap)?;
+    self.expect("ret")?;
+    let return_value = self.expr(heap)?;
+    self.expect("end")?;
+    Ok(Function {
+      name: FunctionName { type_name: TypeNameId::EMPTY, fn_name: name(heap, f) },
+      parameters,
+      type_: Type::new_fn_unwrapped(vec![INT_32_TYPE; n], INT_32_TYPE),
+      body,
+      return_value,
+    })
+  }
+}
+
+fn parse_program(heap: &mut Heap, text: &str) -> PResult<Vec<Function>> {
+  let mut p = Parser { toks: text.split_whitespace().collect(), pos: 0 };
+  let mut fs = Vec::new();
+  while p.peek().is_some() {
+    fs.push(p.function(heap)?);
+  }
+  if fs.is_empty() { Err("no function".to_string()) } else { Ok(fs) }
+}
+
+// ---------------------------------------------------------------------------------------------
+// MIR interpreter: the target's semantics (wasm i32 ops, traps), prints as the observable trace
+// ---------------------------------------------------------------------------------------------
+
+#[derive(Debug, Clone, PartialEq, Eq)]
+enum Stop {
+  Trap(String),
+  Timeout,
+  Bad(String),
+}
+
+enum Flow {
+  Next,
+  Break(i32),
+}
+
+struct Machine<'a> {
+  heap: &'a Heap,
+  functions: &'a [Function],
+  lines: Vec<String>,
+  steps: u64,
+  limit: u64,
+}
+
+fn target_binary(op: B, a: i32, b: i32) -> Result<i32, Stop> {
+  Ok(match op {
+    B::MUL => a.wrapping_mul(b),
+    B::DIV => {
+      if b == 0 {
+        return Err(Stop::Trap(format!("div0:{a}")));
+      }
+      if a == i32::MIN && b == -1 {
+        return Err(Stop::Trap("divovf".to_string()));
+      }
+      a / b
+    }
+    B::MOD => {
+      if b == 0 {
+        return Err(Stop::Trap(format!("rem0:{a}")));
+      }
+      a.wrapping_rem(b)
+    }
+    B::PLUS => a.wrapping_add(b),
+    B::MINUS => a.wrapping_sub(b),
+    B::LAND => a & b,
+    B::LOR => a | b,
+    B::SHL => a.wrapping_shl(b as u32),
+    B::SHR => ((a as u32).wrapping_shr(b as u32)) as i32,
+    B::XOR => a ^ b,
+    B::LT => (a < b) as i32,
+    B::LE => (a <= b) as i32,
+    B::GT => (a > b) as i32,
+    B::GE => (a >= b) as i32,
+    B::EQ => (a == b) as i32,
+    B::NE => (a != b) as i32,
+  })
+}
+
+impl<'a> Machine<'a> {
+  fn eval(&self, env: &HashMap<PStr, i32>, e: &Expression) -> Result<i32, Stop> {
+    match e {
+      Expression::Int32Literal(n) | Expression::Int31Literal(n) => Ok(*n),
+      Expression::StringName(_) => Err(Stop::Bad("string name in int program".into())),
+      Expression::Variable(v) => env
+        .get(&v.name)
+        .copied()
+        .ok_or_else(|| Stop::Bad(format!("unbound variable {}", v.name.as_str(self.heap)))),
+    }
+  }
+
+  fn tick(&mut self) -> Result<(), Stop> {
+    self.steps += 1;
+    if self.steps > self.limit { Err(Stop::Timeout) } else { Ok(()) }
+  }
+
+  fn call(&mut self, f: &FunctionName, args: Vec<i32>, depth: usize) -> Result<i32, Stop> {
+    let fname = f.fn_name.as_str(self.heap);
+    if fname == "print" {
+      self.lines.push(args.iter().map(|a| a.to_string()).collect::<Vec<_>>().join(" "));
+      return Ok(0);
+    }
+    if depth > 150 {
+      return Err(Stop::Timeout);
+    }
+    let functions = self.functions;
+    let func = functions
+      .iter()
+      .find(|g| g.name == *f)
+      .ok_or_else(|| Stop::Bad(format!("unknown function {fname}")))?;
+    if func.parameters.len() != args.len() {
+      return Err(Stop::Bad(format!("arity mismatch calling {fname}")));
+    }
+    let mut env: HashMap<PStr, i32> = HashMap::new();
+    for (p, a) in func.parameters.iter().zip(args) {
+      env.insert(*p, a);
+    }
+    match self.stmts(&mut env, &func.body, depth)? {
+      Flow::Next => {}
+      Flow::Break(_) => return Err(Stop::Bad("break outside loop".into())),
+    }
+    self.eval(&env, &func.return_value)
+  }
+
+  fn stmts(&mut self, env: &mut HashMap<PStr, i32>, ss: &[Statement], depth: usize) -> Result<Flow, Stop> {
+    for s in ss {
+      if let Flow::Break(v) = self.stmt(env, s, depth)? {
+        return Ok(Flow::Break(v));
+      }
+    }
+    Ok(Flow::Next)
+  }
+
+  fn stmt(&mut self, env: &mut HashMap<PStr, i32>, s: &Statement, depth: usize) -> Result<Flow, Stop> {
+    self.tick()?;
+    match s {
+      Statement::Binary(b) => {
+        let a = self.eval(env, &b.e1)?;
+        let c = self.eval(env, &b.e2)?;
+        env.insert(b.name, target_binary(b.operator, a, c)?);
+      }
+      Statement::Not { name, operand } => {
+        let a = self.eval(env, operand)?;
+        env.insert(*name, a ^ 1);
+      }
+      Statement::Cast { name, type_: _, assigned_expression }
+      | Statement::LateInitAssignment { name, assigned_expression } => {
+        let a = self.eval(env, assigned_expression)?;
+        env.insert(*name, a);
+      }
+      Statement::LateInitDeclaration { .. } => {}
+      Statement::Call { callee, arguments, return_type: _, return_collector } => {
+        let mut args = Vec::new();
+        for a in arguments {
+          args.push(self.eval(env, a)?);
+        }
+        let r = match callee {
+          Callee::FunctionName(f) => self.call(&f.name, args, depth + 1)?,
+          Callee::Variable(_) => return Err(Stop::Bad("indirect call".into())),
+        };
+        if let Some(c) = return_collector {
+          env.insert(*c, r);
+        }
+      }
+      Statement::IfElse { condition, s1, s2, final_assignments } => {
+        let c = self.eval(env, condition)? != 0;
+        if let Flow::Break(v) = self.stmts(env, if c { s1 } else { s2 }, depth)? {
+          return Ok(Flow::Break(v));
+        }
+        let mut vals = Vec::new();
+        for fa in final_assignments {
+          vals.push(self.eval(env, if c { &fa.e1 } else { &fa.e2 })?);
+        }
+        for (fa, v) in final_assignments.iter().zip(vals) {
+          env.insert(fa.name, v);
+        }
+      }
+      Statement::SingleIf { condition, invert_condition, statements } => {
+        let c = (self.eval(env, condition)? != 0) ^ *invert_condition;
+        if c {
+          if let Flow::Break(v) = self.stmts(env, statements, depth)? {
+            return Ok(Flow::Break(v));
+          }
+        }
+      }
+      Statement::Break(e) => return Ok(Flow::Break(self.eval(env, e)?)),
+      Statement::While { loop_variables, statements, break_collector } => {
+        let mut vals = Vec::new();
+        for v in loop_variables {
+          vals.push(self.eval(env, &v.initial_value)?);
+        }
+        loop {
+          self.tick()?;
+          for (v, x) in loop_variables.iter().zip(&vals) {
+            env.insert(v.name, *x);
+          }
+          if let Flow::Break(v) = self.stmts(env, statements, depth)? {
+            if let Some(bc) = break_collector {
+              env.insert(bc.name, v);
+            }
+            break;
+          }
+          vals.clear();
+          for v in loop_variables {
+            vals.push(self.eval(env, &v.loop_value)?);
+          }
+        }
+      }
+      Statement::IsPointer { .. }
+      | Statement::IndexedAccess { .. }
+      | Statement::StructInit { .. }
+      | Statement::ClosureInit { .. } => return Err(Stop::Bad("unsupported statement".into())),
+    }
+    Ok(Flow::Next)
+  }
+}
+
+#[derive(Debug, Clone, PartialEq, Eq)]
+struct Outcome {
+  lines: Vec<String>,
+  end: Result<i32, Stop>,
+  steps: u64,
+}
+
+impl Outcome {
+  fn show(&self) -> String {
+    let l = if self.lines.is_empty() { "-".to_string() } else { self.lines.join(",").replace(' ', "_") };
+    let e = match &self.end {
+      Ok(v) => format!("ret:{v}"),
+      Err(Stop::Trap(k)) => format!("trap:{k}"),
+      Err(Stop::Timeout) => "timeout".to_string(),
+      Err(Stop::Bad(m)) => format!("bad:{}", m.replace(' ', "_")),
+    };
+    format!("{l}|{e}")
+  }
+}
+
+fn run_main(heap: &Heap, functions: &[Function], args: &[i32], limit: u64) -> Outcome {
+  let mut m = Machine { heap, functions, lines: Vec::new(), steps: 0, limit };
+  let main = functions.iter().find(|f| f.name.fn_name.as_str(heap) == "f0");
+  let end = match main {
+    None => Err(Stop::Bad("main function f0 disappeared".into())),
+    Some(f) => {
+      let mut a = args.to_vec();
+      a.resize(f.parameters.len(), 0);
+      m.call(&f.name.clone(), a, 0)
+    }
+  };
+  Outcome { lines: m.lines, end, steps: m.steps }
+}
+
+// ---------------------------------------------------------------------------------------------
+// Running the real passes
+// ---------------------------------------------------------------------------------------------
+
+fn config(bits: u32) -> OptimizationConfiguration {
+  OptimizationConfiguration {
+    does_perform_local_value_numbering: bits & 1 != 0,
+    does_perform_common_sub_expression_elimination: bits & 2 != 0,
+    does_perform_loop_optimization: bits & 4 != 0,
+    does_perform_inlining: bits & 8 != 0,
+    does_perform_scalar_replacement: bits & 16 != 0,
+  }
+}
+
+fn sources_of(functions: Vec<Function>) -> Sources {
+  let main_function_names = functions.iter().take(1).map(|f| f.name).collect();
+  Sources {
+    symbol_table: SymbolTable::new(),
+    global_variables: Vec::new(),
+    closure_types: Vec::new(),
+    type_definitions: Vec::new(),
+    main_function_names,
+    functions,
+  }
+}
+
+/// Applies `pass` to a clone of the program. Err = the compiler panicked.
+fn apply_pass(heap: &mut Heap, functions: &[Function], pass: &str, cfg: u32) -> Result<Vec<Function>, String> {
+  let fs: Vec<Function> = functions.to_vec();
+  let r = catch_unwind(AssertUnwindSafe(|| match pass {
+    "all" => samlang_optimization::optimize_sources(heap, sources_of(fs), &config(cfg)).functions,
+    "inline" | "unused" => {
+      verif_hooks::run_pass_sources(pass, heap, sources_of(fs)).expect("known pass").functions
+    }
+    _ => {
+      let mut fs = fs;
+      let counter = heap.create_temp_counter();
+      for f in fs.iter_mut() {
+        assert!(verif_hooks::run_pass(pass, f, &counter, &config(cfg)), "unknown pass");
+      }
+      heap.sync_temp_counter(&counter);
+      fs
+    }
+  }));
+  r.map_err(|e| panic_msg(&e))
+}
+
+fn print_program(heap: &Heap, fs: &[Function]) -> String {
+  let t = SymbolTable::new();
+  fs.iter().map(|f| f.debug_print(heap, &t)).collect::<Vec<_>>().join("\n")
+}
+
+fn parse_args(s: &str) -> Vec<Vec<i32>> {
+  s.split(';')
+    .filter(|t| !t.trim().is_empty())
+    .map(|t| t.split(',').filter(|x| !x.trim().is_empty()).map(|x| x.trim().parse::<i32>().unwrap_or(0)).collect())
+    .collect()
+}
+
+const BEFORE_LIMIT: u64 = 60_000;
+
+fn prog_line(rest: &str, show: bool) -> String {
+  let parts: Vec<&str> = rest.splitn(3, '|').collect();
+  if parts.len() != 3 {
+    return "bad-line".to_string();
+  }
+  let head: Vec<&str> = parts[0].split_whitespace().collect();
+  if head.len() != 2 {
+    return "bad-line".to_string();
+  }
+  let (pass, cfg) = (head[0], head[1].parse::<u32>().unwrap_or(31));
+  let mut heap = Heap::new();
+  let before = match parse_program(&mut heap, parts[2]) {
+    Ok(f) => f,
+    Err(e) => return format!("bad-program {e}"),
+  };
+  let after = match apply_pass(&mut heap, &before, pass, cfg) {
+    Ok(f) => f,
+    Err(m) => return format!("panic {}", m.replace('\n', " ")),
+  };
+  let (tb, ta) = (print_program(&heap, &before), print_program(&heap, &after));
+  if show {
+    return format!("BEFORE: {} AFTER: {}", tb.replace('\n', " ; "), ta.replace('\n', " ; "));
+  }
+  let mut args = parse_args(parts[1]);
+  if args.is_empty() {
+    args.push(Vec::new());
+  }
+  let (mut traps, mut timeouts, mut lines, mut compared) = (0, 0, 0, 0);
+  for (i, a) in args.iter().enumerate() {
+    let ob = run_main(&heap, &before, a, BEFORE_LIMIT);
+    if ob.end == Err(Stop::Timeout) {
+      timeouts += 1;
+      continue;
+    }
+    let oa = run_main(&heap, &after, a, ob.steps * 20 + 50_000);
+    compared += 1;
+    if matches!(ob.end, Err(Stop::Trap(_))) {
+      traps += 1;
+    }
+    lines += ob.lines.len();
+    if ob.lines != oa.lines || ob.end != oa.end {
+      let a_s = a.iter().map(|x| x.to_string()).collect::<Vec<_>>().join(",");
+      return format!("diff arg={i} args={a_s} before={} after={}", ob.show(), oa.show());
+    }
+  }
+  format!("ok compared={compared} traps={traps} timeouts={timeouts} lines={lines} changed={}", (tb != ta) as u8)
+}
+
+// ---------------------------------------------------------------------------------------------
+// The observed counting loop (tie of the Lean loop kernel with loop_optimizations.rs)
+// ---------------------------------------------------------------------------------------------
+
+fn obs_loop_text(g: &str, i0: i32, step: i32, bound: i32, m: i32, c: i32) -> String {
+  // the loop continues while `i G bound`; the guard statement tests the inverse and breaks
+  let inv = match g {
+    "lt" => "ge",
+    "le" => "gt",
+    "gt" => "le",
+    _ => "lt",
+  };
+  let derived = if c == 0 {
+    format!("bin j mul i {m}")
+  } else if m == 1 {
+    format!("bin j add i {c}")
+  } else {
+    format!("bin t mul i {m} bin j add t {c}")
+  };
+  format!(
+    "fn f0 0 while 2 i {i0} ni last 0 j {{ bin cc {inv} i {bound} sif cc 0 {{ brk last }} call print 1 last _ {derived} bin ni add i {step} }} r ret r end"
+  )
+}
+
+fn iv_line(t: &[&str], optimised: bool) -> String {
+  if t.len() != 8 {
+    return "bad-line".to_string();
+  }
+  let p: Vec<i32> = t[2..7].iter().map(|x| x.parse::<i32>().unwrap_or(0)).collect();
+  let fuel: u64 = t[7].parse().unwrap_or(100);
+  let text = obs_loop_text(t[1], p[0], p[1], p[2], p[3], p[4]);
+  let mut heap = Heap::new();
+  let before = parse_program(&mut heap, &text).expect("well-formed loop");
+  let prog = if optimised {
+    match apply_pass(&mut heap, &before, "loop", 31) {
+      Ok(f) => f,
+      Err(_) => return "panic".to_string(),
+    }
+  } else {
+    before
+  };
+  // `fuel` = number of guard evaluations allowed, as in the model
+  let mut m = Machine { heap: &heap, functions: &prog, lines: Vec::new(), steps: 0, limit: u64::MAX };
+  let f = &prog[0];
+  let mut env: HashMap<PStr, i32> = HashMap::new();
+  // run prefix statements, then the loop with an iteration bound
+  let mut ret = None;
+  for s in &f.body {
+    if let Statement::While { loop_variables, statements, break_collector } = s {
+      let mut vals: Vec<i32> = Vec::new();
+      for v in loop_variables {
+        match m.eval(&env, &v.initial_value) {
+          Ok(x) => vals.push(x),
+          Err(e) => return format!("bad {e:?}"),
+        }
+      }
+      let mut left = fuel;
+      loop {
+        if left == 0 {
+          return "fuel".to_string();
+        }
+        left -= 1;
+        for (v, x) in loop_variables.iter().zip(&vals) {
+          env.insert(v.name, *x);
+        }
+        match m.stmts(&mut env, statements, 0) {
+          Ok(Flow::Break(v)) => {
+            if let Some(bc) = break_collector {
+              env.insert(bc.name, v);
+            }
+            ret = Some(v);
+            break;
+          }
+          Ok(Flow::Next) => {}
+          Err(e) => return format!("bad {e:?}"),
+        }
+        vals.clear();
+        for v in loop_variables {
+          match m.eval(&env, &v.loop_value) {
+            Ok(x) => vals.push(x),
+            Err(e) => return format!("bad {e:?}"),
+          }
+        }
+      }
+    } else if let Err(e) = m.stmt(&mut env, s, 0) {
+      return format!("bad {e:?}");
+    }
+  }
+  let r = match m.eval(&env, &f.return_value) {
+    Ok(v) => v,
+    Err(_) => ret.unwrap_or(0),
+  };
+  let printed = if m.lines.is_empty() { "-".to_string() } else { m.lines.join(",") };
+  format!("out {printed} ret {r}")
+}
+
+fn kernel_line(t: &[&str]) -> String {
+  let int = |s: &str| s.parse::<i32>();
+  match t[0] {
+    "fold" if t.len() == 4 => match (op_of(t[1]), int(t[2]), int(t[3])) {
+      (Some(o), Ok(a), Ok(b)) => match verif_hooks::evaluate_bin_op(o, a, b) {
+        Some(v) => format!("v {v}"),
+        None => "nofold".to_string(),
+      },
+      _ => "bad-line".to_string(),
+    },
+    "tgt" if t.len() == 4 => match (op_of(t[1]), int(t[2]), int(t[3])) {
+      (Some(o), Ok(a), Ok(b)) => match target_binary(o, a, b) {
+        Ok(v) => format!("v {v}"),
+        Err(_) => "trap".to_string(),
+      },
+      _ => "bad-line".to_string(),
+    },
+    "merge" if t.len() == 5 => match (op_of(t[1]), op_of(t[2]), int(t[3]), int(t[4])) {
+      (Some(o), Some(i), Ok(c1), Ok(c2)) => match verif_hooks::merge_binary_expression(o, i, c1, c2) {
+        Some((op, c)) => format!("m {} {c}", op_name(op)),
+        None => "none".to_string(),
+      },
+      _ => "bad-line".to_string(),
+    },
+    "trip" if t.len() == 5 => {
+      let g = match t[1] {
+        "lt" => 0u8,
+        "le" => 1,
+        "gt" => 2,
+        "ge" => 3,
+        _ => return "bad-line".to_string(),
+      };
+      match (int(t[2]), int(t[3]), int(t[4])) {
+        (Ok(i0), Ok(st), Ok(b)) => {
+          match verif_hooks::analyze_number_of_iterations_to_break_guard(i0, st, g, b) {
+            Some(n) => format!("n {n}"),
+            None => "none".to_string(),
+          }
+        }
+        _ => "bad-line".to_string(),
+      }
+    }
+    "flex" | "order" | "unwrap" if t.len() == 4 => {
+      let mut heap = Heap::new();
+      match (op_of(t[1]), expr_of(&mut heap, t[2]), expr_of(&mut heap, t[3])) {
+        (Some(o), Some(a), Some(b)) => match t[0] {
+          "flex" => show_binary(&heap, &Statement::binary_flexible_unwrapped(PStr::INVALID_PSTR, o, a, b)),
+          "unwrap" => show_binary(&heap, &Statement::binary_unwrapped(PStr::INVALID_PSTR, o, a, b)),
+          _ => {
+            let (operator, e1, e2) = Statement::flexible_order_binary(o, a, b);
+            show_binary(&heap, &Binary { name: PStr::INVALID_PSTR, operator, e1, e2 })
+          }
+        },
+        _ => "bad-line".to_string(),
+      }
+    }
+    "ccp" if t.len() == 4 => {
+      let mut heap = Heap::new();
+      match (op_of(t[1]), expr_of(&mut heap, t[2]), expr_of(&mut heap, t[3])) {
+        (Some(o), Some(a), Some(b)) => {
+          let r = name(&mut heap, "r");
+          let mut f = Function {
+            name: FunctionName { type_name: TypeNameId::EMPTY, fn_name: name(&mut heap, "f0") },
+            parameters: (0..8).map(|i| name(&mut heap, &format!("v{i:02}"))).collect(),
+            type_: Type::new_fn_unwrapped(vec![INT_32_TYPE; 8], INT_32_TYPE),
+            body: vec![Statement::Binary(Binary { name: r, operator: o, e1: a, e2: b })],
+            return_value: Expression::var_name(r, INT_32_TYPE),
+          };
+          let counter = heap.create_temp_counter();
+          verif_hooks::run_pass("ccp", &mut f, &counter, &config(31));
+          match f.body.as_slice() {
+            [] => format!("bind {}", show_expr(&heap, &f.return_value)),
+            [Statement::Binary(b)] => format!("stmt {}", show_binary(&heap, b)),
+            _ => "unexpected-shape".to_string(),
+          }
+        }
+        _ => "bad-line".to_string(),
+      }
+    }
+    "ivloop" => iv_line(t, true),
+    "ivorig" => iv_line(t, false),
+    _ => "bad-op".to_string(),
+  }
+}
+
 fn main() {
-  eprintln!("c02: not implemented yet");
-  std::process::exit(2);
+  std::panic::set_hook(Box::new(|_| {}));
+  for_each_line(|line| {
+    if let Some(rest) = line.strip_prefix("prog ") {
+      return catch_unwind(AssertUnwindSafe(|| prog_line(rest, false))).unwrap_or_else(|e| format!("harness-panic {}", panic_msg(&e)));
+    }
+    if let Some(rest) = line.strip_prefix("show ") {
+      return catch_unwind(AssertUnwindSafe(|| prog_line(rest, true))).unwrap_or_else(|e| format!("harness-panic {}", panic_msg(&e)));
+    }
+    let t: Vec<&str> = line.split_whitespace().collect();
+    catch_unwind(AssertUnwindSafe(|| kernel_line(&t))).unwrap_or_else(|_| "panic".to_string())
+  });
 }
